@@ -7,6 +7,7 @@ are about.  So `simple_list_*`, `pager_*`, `scrollbar_*` are theorems about the 
 import VaxisModel.Model.WidGenBodies
 import VaxisModel.Lemmas.WidExecList
 import VaxisModel.Props.C19
+import VaxisModel.Props.C19Pager
 
 namespace VaxisModel.Props.C19Wid
 open VaxisModel.Model VaxisModel.Model.WidExec
@@ -127,6 +128,24 @@ example : (match listRunBody (SimpleList.new 3) [.down, .down, .draw 2, .setItem
     | _ => false) = true := by
   decide +kernel
 
+/-- **Selection valid and visible — for the EXECUTED `List`.**  `New(items)` with any item count, then ANY history of
+    Down/Up/Home/End/PageDown/PageUp/SetItems/Draw, then a `Draw` into a window of height `h > 0`, every step executed from
+    the regenerated bodies: nothing panics or gets stuck, every printed row lies inside the window and shows an existing
+    item, a row is drawn selected (reverse video) iff it shows item `Index()`, and when there are items such a row exists. -/
+theorem list_selected_visible_body (n : Nat) (ops : List SimpleList.Op) (h : Nat) (hh : 0 < h) :
+    ∃ s0 s s' rows, runListNew genB.listNew n = some s0 ∧ listRunBody s0 ops = some (.ok s) ∧
+      listStepBody s (.draw h) = some (.ok (s', rows)) ∧ runListIndex genB.listIndex s' = some s.index ∧
+      (∀ r ∈ rows, r.row < h ∧ 0 ≤ r.item ∧ r.item < (s.n : Int) ∧ (r.sel = true ↔ r.item = s.index)) ∧
+      (0 < s.n → ∃ r ∈ rows, r.sel = true ∧ r.item = s.index) := by
+  obtain ⟨s, hrun, s', rows, hd, hidx, h1, h2⟩ := C19.simple_list_selected_visible n ops h hh
+  obtain ⟨s2, hb, hm⟩ := list_history_body_eq_model n ops
+  have hss : s2 = s := by rw [hrun] at hm; injection hm with hm; exact hm.symm
+  subst hss
+  refine ⟨SimpleList.new n, s2, s', rows, list_new_body_eq_model n, hb, ?_, ?_, h1, h2⟩
+  · rw [list_step_body_eq_model]
+    simp [SimpleList.step, hd, obs]
+  · rw [list_index_body_eq_model, hidx]
+
 /-! ### widgets/pager -/
 
 /-- **`Layout()`, executed from its regenerated body** (the two nested `range` loops over the segments and their
@@ -221,6 +240,36 @@ example : ((pagerRunBody (fun t => [t]) Pager.init
         (fun s => (s.offset, s.lines.length))) = some (2, 3) := by
   decide +kernel
 
+/-- **The pager presents every character of its text — for the EXECUTED code.**  Every text whose characters are at
+    least one column wide, every segmentation of it, every window of at least one column and one row, every laid-out line
+    `i` and every character `k` of it: hand the text to the pager, `Draw`, press `ScrollDown` `i` times, `Draw` again — all
+    executed from the regenerated bodies of `Draw`, `Layout` and `ScrollDown` — and some row of the window shows that
+    character in its own cell, at the column = the total width of the characters before it on its line (inside the window).
+    With `pager_complete` (the lines are the text without its newline characters, the unterminated last line included) this
+    is the clause "presents every line …, wraps at the window width without losing characters" for the interpreted source. -/
+theorem pager_presents_every_character_body (seg : List Pager.Ch → List (List Pager.Ch)) (hseg : ∀ t, (seg t).flatten = t)
+    (cs : List Pager.Ch) (hpos : ∀ c ∈ cs, c.isNl = false → 1 ≤ c.width) (w h : Nat) (hw : 1 ≤ w) (hh : 1 ≤ h)
+    (i : Nat) (l : Pager.Line) (hi : (Pager.layout true w cs)[i]? = some l) (k : Nat) (c : Pager.Ch) (hk : l[k]? = some c) :
+    ∃ s s' win r, pagerRunBody seg Pager.init ([.setText cs, .draw w h] ++ List.replicate i .scrollDown) = some s ∧
+      runPager genB genB.pagerDraw (seg s.text) s w h true = some (s', win) ∧ r < h ∧
+      Pager.widthSum (l.take k) < w ∧
+      (win[r]?).bind (fun row => row[(Pager.widthSum (l.take k)).toNat]?) = some (some c) := by
+  have hf := C19.layout_flushes_last
+  have hi' : (Pager.layout Gen.ListFacts.layoutFlushesLast w cs)[i]? = some l := by rw [hf]; exact hi
+  obtain ⟨r, hr, hrow⟩ := C19Pager.pager_line_reachable_by_scrolling cs w h hw hh i l hi'
+  rw [hf] at hrow
+  have hl : l ∈ Pager.layout Gen.ListFacts.layoutFlushesLast w cs := List.mem_of_getElem? hi'
+  obtain ⟨hcol, hcell⟩ := C19.pager_row_keeps_characters w hw cs hpos l hl k c hk
+  obtain ⟨s, hs⟩ : ∃ s, s = Pager.run true Pager.init ([.setText cs, .draw w h] ++ List.replicate i .scrollDown) := ⟨_, rfl⟩
+  rw [← hs] at hrow
+  obtain ⟨d, hd⟩ : ∃ d, d = Pager.draw true s w h := ⟨_, rfl⟩
+  rw [← hd] at hrow
+  refine ⟨s, d.1, d.2, r, ?_, ?_, hr, hcol, ?_⟩
+  · rw [hs]; exact pager_history_body_eq_model seg hseg _ _
+  · rw [hd]; exact pager_draw_body_eq_model (seg _) _ w h true (hseg _)
+  · rw [hrow]
+    simpa using hcell
+
 /-! ### widgets/scrollbar -/
 
 /-- **The scrollbar's `Draw`, executed from its regenerated body** (both early returns, the two truncating divisions,
@@ -232,5 +281,22 @@ theorem scrollbar_draw_body_eq_model (total view top : Int) (w h fuel : Nat) (ce
   rw [gen_bodies_parsed]; exact WidExec.bdraw_run total view top w h fuel ce hw hf
 
 example : runBar genB.barDraw 10 4 3 1 5 7 true = some [1, 2] := by decide +kernel
+
+/-- **Bar inside the track — for the EXECUTED `Draw`.**  Every real scroll position (`1 ≤ view < total`,
+    `0 ≤ top ≤ total − view`), every window of at least one column and one row: the regenerated body, executed, marks
+    exactly the rows `barTop … barTop + barH − 1`, a non-empty contiguous stretch that lies inside the window. -/
+theorem scrollbar_in_track_body (total view top : Int) (w h fuel : Nat) (ce : Bool) (hw : 1 ≤ w) (hf : h + 2 ≤ fuel)
+    (hv : 1 ≤ view) (hvt : view < total) (ht0 : 0 ≤ top) (ht : top ≤ total - view) (hh : 1 ≤ h) :
+    ∃ (t len : Nat) , 1 ≤ len ∧ t + len ≤ h ∧
+      runBar genB.barDraw total view top w h fuel ce = some ((List.range h).filter fun r => decide (t ≤ r ∧ r < t + len)) := by
+  obtain ⟨b, hb, h0, h1, h2⟩ := C19.scrollbar_in_track total view top h hv hvt ht0 ht (by omega)
+  refine ⟨b.top.toNat, b.len.toNat, by omega, by omega, ?_⟩
+  rw [scrollbar_draw_body_eq_model total view top w h fuel ce hw hf]
+  simp only [Scrollbar.rows, hb]
+  congr 1
+  apply List.filter_congr
+  intro r _
+  simp only [decide_eq_decide]
+  omega
 
 end VaxisModel.Props.C19Wid
